@@ -173,7 +173,16 @@ const (
 	symFirstOne       // server-first whose r= is the first byte of the client nonce
 	symFirstShort     // server-first whose r= is the client nonce without its last byte (nothing appended)
 	symFirstExact     // server-first whose r= is the client nonce exactly (no server part)
+	symIter0          // otherwise valid server-first with i=0
+	symIterNeg        // i=-1
+	symIter00         // i=00
+	symIterPlus       // i=+5
+	symIterEmpty      // i=
+	symIterJunk       // i=4096x
+	symIterHuge       // i=99999999999999999999
 )
+
+var iterTexts = map[byte]string{symIter0: "0", symIterNeg: "-1", symIter00: "00", symIterPlus: "+5", symIterEmpty: "", symIterJunk: "4096x", symIterHuge: "99999999999999999999"}
 
 type reply struct {
 	code int
@@ -208,6 +217,10 @@ func concretize(h saslx.Hash, p params, prev string, sym byte, v *view) reply {
 			cn = cn[:len(cn)-1]
 		}
 		m := "r=" + cn + tail
+		v.sfirst = m
+		return chal(m)
+	case symIter0, symIterNeg, symIter00, symIterPlus, symIterEmpty, symIterJunk, symIterHuge:
+		m := "r=" + v.cn + p.nonce + ",s=" + saslx.B64(p.salt) + ",i=" + iterTexts[sym]
 		v.sfirst = m
 		return chal(m)
 	case symFirstMalformed:
@@ -558,6 +571,19 @@ func Run(r *hx.Run, replay []hx.Case) {
 					runCase(r, mkCase(r, "c15", v.name, full, nil, "user", "pencil", salt, 2))
 					return true
 				})
+			}
+		}
+	}
+	// otherwise valid server-first with an unusual iteration count text (0, -1, 00, +5, empty, 4096x, 20 digits):
+	// [empty, that server-first] ++ {nothing, 235, valid-looking final, 535, final then 235}
+	for _, v := range variants {
+		for s := byte(symIter0); s <= symIterHuge; s++ {
+			for _, suf := range [][]byte{{}, {symSuccess}, {symFinal}, {symFailure}, {symFinal, symSuccess}} {
+				if r.Expired() {
+					break
+				}
+				r.Dist["family:iteration-text"]++
+				runCase(r, mkCase(r, "c15", v.name, append([]byte{symEmpty, s}, suf...), nil, "user", "pencil", salt, 2))
 			}
 		}
 	}
